@@ -1,16 +1,27 @@
 """C08 — VLRs and EVLRs are preserved verbatim and in order; known record types re-serialise to a payload that parses
 to the same content; payloads that cannot be parsed are kept as raw records, unchanged.
 
-Model: Model/Known.v (per type parse/serialise over bytes, vlr_factory over the table of Gen/GenKnown.v) on top of the
-list codec of Model/Las.v. Correspondence: (a) record lists through VLRList.write_to/read_from (VLR and EVLR form):
-bytes written, records handed out (class, ids, description, parsed content, record_data_bytes()), and the second
-generation (what was read, written and read again); (b) the same lists attached to real LAS files written and read
-by laspy (LasData.write / laspy.read, LasWriter.write_evlrs / laspy.open) and carried through a history of generations
-(read, edit the lists -- remove, insert, clear, replace, reverse, move --, write through the header that was read, read
-again), against the file model (write_file / read_file: header fields that locate the records, record bytes, records);
-(c) the dispatch table; (d) serialisation of user-built classification lookups.
-Search: the property stated on the implementation alone, on the same runs plus a stream of valid non-ASCII UTF-8
-text payloads (outside the model's text assumption)."""
+Model: Model/Known.v (per type parse/serialise over bytes, vlr_factory over the table of Gen/GenKnown.v; the file
+around the lists: write_file / write_file_known (LasWriter), read_file (a source that can seek), read_file_from (a
+source that can only be read forward), append_file (LasAppender)) on top of the list codec of Model/Las.v.
+Correspondence: (a) record lists through VLRList.write_to/read_from (VLR and EVLR form): bytes written, records
+handed out (class, ids, description, parsed content, record_data_bytes()), and the second generation (what was read,
+written and read again); (b) the same lists attached to real LAS files and carried through a history of generations.
+Every generation is WRITTEN by one of the public ways (LasData.write to a stream / path, twice, from a copied header,
+next to a second LasData on the same header and lists, with explicit options; LasWriter through laspy.open / the class /
+a path, write_evlrs called or not, the with block left by an exception; laspy.convert then write; an APPEND SESSION on
+the file itself: laspy.open(mode="a") on a stream / path or LasAppender, with nothing / empty chunks / points appended
+and the public .evlrs list edited meanwhile) after the lists that were read were edited (remove, insert, clear,
+replace, reverse, move, edit a payload in place or replace a record, the same object twice), possibly laid out as other
+software may (bytes between the last point and the first EVLR, bytes behind the last EVLR, 0xAABB record signatures),
+and READ by laspy.read(stream) and by a sample of all other ways of opening (bytes, path, pathlib, file object,
+laspy.open / LasReader with EVLRs loaded at opening or deferred to read() / read_evlrs() -- directly, after
+chunk_iterator, read_points, seek --, LasHeader.read_from, laspy.mmap, sources that cannot seek); all against the file
+model (header fields that locate the records, record bytes, the whole file for append sessions, records read by each
+route); (c) the dispatch table; (d) serialisation of user-built classification lookups.
+Search: the property stated on the implementation alone, on the same runs (every generation holds the lists that were
+attached; every route reads what laspy.read(stream) reads; a refused append session leaves the file's records alone)
+plus a stream of valid non-ASCII UTF-8 text payloads (outside the model's text assumption)."""
 import io
 import os
 
@@ -30,7 +41,16 @@ ASSUMPTIONS = [
     "first LasZipVlr) are not generated in files; both are exercised as EVLRs and through VLRList directly",
     "list edits between generations go through the list API of las.vlrs / las.evlrs (and las.evlrs = VLRList(...)); the "
     "header.vlrs setter and add_extra_dim(s) / remove_extra_dim(s), which regenerate the extra-bytes record by design, are "
-    "not part of the histories",
+    "not part of the histories; laspy.convert (which regenerates that record too) is applied to files without extra dimensions",
+    "append sessions edit the EVLR list only (the VLRs are written back in place and cannot change size); an append session on a "
+    "file whose VLRs do not serialise to the room they have (a WKT record without its NUL, trailing bytes a parser drops) may be "
+    "refused, but must leave the records of the file as they were; the model (append_file) refuses it before anything is written",
+    "files laid out by other software are derived from files laspy wrote: bytes inserted between the last point and the first "
+    "EVLR (zeros, 0xFF, noise, a decoy EVLR), bytes appended behind the last EVLR, reserved bytes of every record set to 0xAABB; "
+    "compressed files are not generated (no LAZ backend is installed)",
+    "record payloads are handed over as bytes or bytearray (a memoryview cannot be deep-copied by LasWriter, a numpy integer "
+    "record id has no to_bytes: both fail loudly and are outside the domain); copy.deepcopy / pickle of a whole LasData raises "
+    "RecursionError in laspy and is not a route (the header is copied instead)",
     "user id 'copc' (CopcInfoVlr / CopcHierarchyVlr, 'Writing COPC is not supported') is outside the property and is not generated; "
     "the model marks these classes KUnmodelled",
     "the geokey count wraps modulo 2^16 only for payloads above 524295 bytes; these are checked by the search oracle only "
@@ -306,11 +326,13 @@ def gen_list(rng, n, file_vlr=False):
 
 
 VIAS = ["write", "write", "writer", "disk", "writer-noevlrs"]
+MORE_VIAS = ["write-twice", "write-copy", "write-shared", "write-nocompress", "write-header-evlrs", "writer-class", "writer-path", "writer-raise", "writer-options"]
+PREFERRED_VERSION = {0: "1.2", 1: "1.2", 2: "1.2", 3: "1.2", 4: "1.3", 5: "1.3", 6: "1.4", 7: "1.4", 8: "1.4"}
 
 
-def gen_edit(rng, ver):
-    which = "e" if ver == "1.4" and rng.random() < 0.5 else "v"
-    op = rng.choice(["del", "del", "ins", "ins", "clear", "new", "rev", "move"])
+def gen_edit(rng, ver, only=None):
+    which = only or ("e" if ver == "1.4" and rng.random() < 0.5 else "v")
+    op = rng.choice(["del", "del", "ins", "ins", "clear", "new", "rev", "move", "set", "dup"])
     if op == "del":
         return ["del", which, rng.randrange(64)]
     if op == "ins":
@@ -319,21 +341,67 @@ def gen_edit(rng, ver):
         return ["new", which, gen_list(rng, rng.choice([0, 0, 1, 3]), file_vlr=which == "v")]
     if op == "move":
         return ["move", which, rng.randrange(64), rng.randrange(64)]
+    if op == "set":
+        return ["set", which, rng.randrange(64), rbytes(rng, rng.choice([0, 1, 5, 40])), unknown_record(rng)]
+    if op == "dup":
+        return ["dup", which, rng.randrange(64), rng.randrange(64)]
     return [op, which]
 
 
-def gen_steps(rng, ver):
+def gen_spread(rng):
+    """how other software may have laid the file out: [fill, bytes between the last point and the first EVLR, bytes
+    behind the last EVLR]"""
+    gap = rng.choice([1, 2, 7, 59, 60, 61, 100, 333])
+    tail = rng.choice([0, 0, 0, 5, 64])
+    if tail and rng.random() < 0.3:
+        gap = 0
+    return [rng.choice(GAP_FILLS), gap, tail, rng.random() < 0.25]
+
+
+CHUNKS = [[], [], [0], [0, 0], [1], [3], [0, 2, 0], [2, 1]]
+
+
+def gen_append(rng, ver):
+    edits = [gen_edit(rng, ver, only="e") for _ in range(rng.choice([0, 1, 1, 2, 3]))] if ver == "1.4" else []
+    return {"via": "append", "open": rng.choice(["stream", "stream", "path", "class"]), "end": rng.choice(["with", "with", "close", "raise"]),
+            "edits": edits, "chunks": list(rng.choice(CHUNKS))}
+
+
+def gen_convert(rng, fmt, ver):
+    """-> step, new fmt, new version"""
+    if rng.random() < 0.25 and ver == "1.4":
+        # explicit downgrade: the EVLRs cannot be kept
+        to = [rng.choice([0, 1, 3]), rng.choice(["1.2", "1.3"]), True]
+    else:
+        f = rng.choice([0, 1, 2, 3, 6, 7, 8])
+        auto = max(ver, PREFERRED_VERSION[f])
+        to = [f, auto, rng.random() < 0.5]
+    return {"via": "convert", "to": to, "edits": []}, to[0], to[1]
+
+
+def gen_steps(rng, ver, fmt=None, has_eb=False):
     """what happens to the file after it was first written: 1..3 more generations, each = the lists that were read
-    are edited (or not) and written through the header that was read"""
+    are edited (or not) and the file is written again (LasData.write / LasWriter in their variants, through the header
+    that was read), or converted and written, or an append session is run on the file itself; a 1.4 file may then be
+    laid out with bytes between its points and its EVLRs before it is read"""
     r = rng.random()
-    if r < 0.35:
+    if r < 0.25:
         return [{"via": rng.choice(VIAS[:4]), "edits": []}]
     steps = []
     for _ in range(rng.choice([1, 1, 2, 3])):
-        edits = [gen_edit(rng, ver) for _ in range(rng.choice([0, 1, 1, 2, 3]))]
-        if ver == "1.4" and rng.random() < 0.25:
-            edits.append(rng.choice([["clear", "e"], ["new", "e", []], ["clear", "e"]]))   # every EVLR removed
-        steps.append({"via": rng.choice(VIAS), "edits": edits})
+        r = rng.random()
+        if r < 0.3:
+            st = gen_append(rng, ver)
+        elif r < 0.38 and fmt is not None and not has_eb:
+            st, fmt, ver = gen_convert(rng, fmt, ver)
+        else:
+            edits = [gen_edit(rng, ver) for _ in range(rng.choice([0, 1, 1, 2, 3]))]
+            if ver == "1.4" and rng.random() < 0.25:
+                edits.append(rng.choice([["clear", "e"], ["new", "e", []], ["clear", "e"]]))   # every EVLR removed
+            st = {"via": rng.choice(VIAS + VIAS + MORE_VIAS), "edits": edits}
+        if ver == "1.4" and rng.random() < 0.35:
+            st["spread"] = gen_spread(rng)
+        steps.append(st)
     return steps
 
 
@@ -362,6 +430,53 @@ def gen_cases(ctx):
         vl.insert(pos, (U_SPEC, 4, gen_desc(rng), eb_payload(rng), "extra/wf"))
         cases.append({"mode": "file", "version": rng.choice(["1.2", "1.4"]), "fmt": 3, "points": 2, "via": "write", "recs": vl, "erecs": None,
                       "steps": [{"via": "write", "edits": []}, {"via": "writer", "edits": []}]})
+    # every way of reading (all routes) x how the file is laid out: EVLRs right behind the points, behind a gap of zeros /
+    # 0xFF / noise / a decoy record, bytes behind the last EVLR; files without EVLRs, older files, no points
+    seed = rng.randrange(1 << 30)
+    layouts = [None, ["zero", 1, 0], ["record", 60, 0], ["record", 75, 0, True], ["rand", 100, 0], ["ff", 7, 9], ["zero", 0, 12], ["zero", 120, 0], ["zero", 0, 0, True]]
+    for i, lay in enumerate(layouts):
+        cases.append({"mode": "file", "version": "1.4", "fmt": rng.choice([6, 7, 3]), "points": [0, 3, 5][i % 3], "via": "write",
+                      "recs": [unknown_record(rng, 3)], "erecs": [unknown_record(rng, 6), known_record(rng, "wkt", "wf"), unknown_record(rng, 0)],
+                      "spread": lay, "routes": "all", "steps": []})
+    cases.append({"mode": "file", "version": "1.4", "fmt": 6, "points": 2, "via": "write", "recs": [unknown_record(rng, 3)], "erecs": None, "routes": "all", "steps": []})
+    cases.append({"mode": "file", "version": "1.2", "fmt": 3, "points": 2, "via": "write", "recs": [unknown_record(rng, 3), known_record(rng, "ascii", "wf")], "erecs": None, "routes": "all", "steps": []})
+    # every way of writing as a second generation (the EVLR list kept, or emptied)
+    for via in VIAS[1:] + MORE_VIAS:
+        for ed in ([], [["clear", "e"]]):
+            cases.append({"mode": "file", "version": "1.4", "fmt": 6, "points": 2, "via": "write", "recs": [unknown_record(rng, 3)],
+                          "erecs": [unknown_record(rng, 5), known_record(rng, "lookup", "wf")], "routes": [2, seed],
+                          "steps": [{"via": via, "edits": ed}]})
+    # append sessions: what is appended (nothing, empty chunks, points) x what happens to the EVLR list meanwhile, on a
+    # file whose EVLRs follow the points or not; on a file without EVLRs; on an older file
+    k = 0
+    for chunks in ([], [0], [0, 0], [2], [0, 1, 0]):
+        for ed in ([], [["ins", "e", 1, unknown_record(rng, 4)]], [["del", "e", 0]], [["clear", "e"]], [["new", "e", [unknown_record(rng, 2)]]],
+                   [["new", "e", []]], [["rev", "e"]], [["move", "e", 0, 2]], [["set", "e", 0, rbytes(rng, 9), unknown_record(rng, 1)]],
+                   [["dup", "e", 0, 2]]):
+            k += 1
+            if not ctx.thorough() and k % 2 == 0 and chunks not in ([], [0]):
+                continue
+            for lay in ([None, ["zero", 50, 0]] if ctx.thorough() else [[None, ["zero", 50, 0], ["record", 64, 3]][k % 3]]):
+                cases.append({"mode": "file", "version": "1.4", "fmt": 6, "points": [2, 0][k % 5 == 0], "via": "write", "recs": [unknown_record(rng, 3)],
+                              "erecs": [unknown_record(rng, 5), unknown_record(rng, 0), known_record(rng, "ascii", "wf")], "spread": lay, "routes": [1, seed],
+                              "steps": [{"via": "append", "open": ["stream", "path", "class"][k % 3], "end": ["with", "close", "raise"][k % 3],
+                                         "edits": ed, "chunks": list(chunks)}]})
+    for chunks in ([], [0], [1]):
+        for ed in ([["new", "e", [unknown_record(rng, 2)]]], [["ins", "e", 0, unknown_record(rng, 3)]], []):
+            cases.append({"mode": "file", "version": "1.4", "fmt": 7, "points": 1, "via": "write", "recs": [unknown_record(rng, 3)], "erecs": None, "routes": [1, seed],
+                          "steps": [{"via": "append", "open": "stream", "end": "with", "edits": ed, "chunks": list(chunks)},
+                                    {"via": "append", "open": "stream", "end": "with", "edits": [], "chunks": [1]}]})
+    cases.append({"mode": "file", "version": "1.2", "fmt": 3, "points": 1, "via": "write", "recs": [unknown_record(rng, 3), known_record(rng, "lookup", "wf")], "erecs": None,
+                  "routes": [1, seed], "steps": [{"via": "append", "open": "stream", "end": "with", "edits": [], "chunks": [0, 2]}]})
+    # a VLR that does not serialise to the room it has in the file (a WKT without its NUL, as other software writes it)
+    cases.append({"mode": "file", "version": "1.4", "fmt": 6, "points": 3, "via": "write", "recs": [(U_PROJ, 2112, b"no final NUL", b"GEOGCS[]", "wkt/norm")],
+                  "erecs": [unknown_record(rng, 5)], "steps": [{"via": "append", "open": "stream", "end": "with", "edits": [], "chunks": [2]}]})
+    # converted, then written
+    for fmt, ver, to in ((6, "1.4", [7, "1.4", False]), (6, "1.4", [3, "1.4", False]), (3, "1.2", [6, "1.4", False]), (1, "1.3", [1, "1.4", True]),
+                         (6, "1.4", [3, "1.2", True]), (3, "1.4", [0, "1.3", True]), (0, "1.2", [2, "1.2", True])):
+        cases.append({"mode": "file", "version": ver, "fmt": fmt, "points": 2, "via": "write", "recs": [unknown_record(rng, 3), known_record(rng, "geokeys", "wf")],
+                      "erecs": [unknown_record(rng, 5)] if ver == "1.4" else None, "routes": [1, seed],
+                      "steps": [{"via": "convert", "to": to, "edits": []}, {"via": "write", "edits": []}]})
     # every id / description length, full-width punctuation
     for ln in range(0, 17):
         cases.append({"mode": "list", "ext": ln % 2 == 0, "recs": [(rtext(rng, ln, PRINTABLE), rng.randrange(65536), rtext(rng, 2 * ln, PUNCT), rbytes(rng, ln), "unknown")]})
@@ -369,8 +484,10 @@ def gen_cases(ctx):
     for i in range(ctx.n(400, 3000)):
         ext = rng.random() < 0.5
         cases.append({"mode": "list", "ext": ext, "recs": gen_list(rng, rng.choice(sizes))})
+        if i % 7 == 0:
+            cases[-1]["ptypes"] = True
     # (b) real files
-    for i in range(ctx.n(200, 1500)):
+    for i in range(ctx.n(320, 2500)):
         ver, fmt = rng.choice([("1.2", 0), ("1.2", 3), ("1.3", 1), ("1.4", 3), ("1.4", 6), ("1.4", 6), ("1.4", 7), ("1.4", 6)])
         vl = gen_list(rng, rng.choice(sizes), file_vlr=True)
         evl = gen_list(rng, rng.choice(sizes)) if ver == "1.4" and rng.random() < 0.8 else None
@@ -381,9 +498,17 @@ def gen_cases(ctx):
         if rng.random() < 0.3:
             # the file has extra dimensions: their extra-bytes record is one of the VLRs, anywhere in the list
             vl.insert(rng.randrange(len(vl) + 1), (U_SPEC, 4, gen_desc(rng), eb_payload(rng), "extra/wf"))
-        cases.append({"mode": "file", "version": ver, "fmt": fmt, "points": rng.choice([0, 1, 7]),
-                      "via": rng.choice(["write", "write", "writer", "disk"]), "recs": vl, "erecs": evl,
-                      "steps": gen_steps(rng, ver)})
+        case = {"mode": "file", "version": ver, "fmt": fmt, "points": rng.choice([0, 1, 7]),
+                "via": rng.choice(["write", "write", "writer", "disk"] + MORE_VIAS), "recs": vl, "erecs": evl,
+                "routes": [2, rng.randrange(1 << 30)]}
+        if ver == "1.4" and evl and rng.random() < 0.3:
+            case["spread"] = gen_spread(rng)
+        if rng.random() < 0.2:
+            case["ptypes"] = True
+        if rng.random() < 0.2:
+            case["make"] = "create"
+        case["steps"] = gen_steps(rng, ver, fmt, any(r[4].startswith("extra/") for r in vl))
+        cases.append(case)
     # (c) payload size boundaries (last: they are the expensive ones)
     for ext in (False, True):
         for size in (65535, 65536):
@@ -470,12 +595,13 @@ def outgrew(recs, gen):
 def mk_vlrs(recs):
     import laspy
     from laspy.vlrs.vlrlist import VLRList
-    return VLRList([laspy.VLR(u.decode("ascii"), r, d.decode("ascii"), p) for u, r, d, p, _ in recs])
+    return VLRList([laspy.VLR(u.decode("ascii"), r, d.decode("ascii"), as_payload(p)) for u, r, d, p, _ in recs])
 
 
 def run_list(case):
     """-> dict(werr | bytes, gen1, w2err | bytes2, gen2)"""
     from laspy.vlrs.vlrlist import VLRList
+    _PTYPES[0], _PTYPES[1] = bool(case.get("ptypes")), 0
     ext = case["ext"]
     vl = mk_vlrs(case["recs"])
     res = {}
@@ -507,24 +633,68 @@ def run_list(case):
 _TMP = "/var/tmp/c08_files_%d" % os.getpid()
 
 
+_PTYPES = [False, 0]     # payloads of new records handed over as bytes / bytearray in turn (per case)
+
+
+def as_payload(p):
+    if not _PTYPES[0]:
+        return p
+    _PTYPES[1] += 1
+    return (p, bytearray(p))[_PTYPES[1] % 2]
+
+
 def mk_vlr(rec):
     import laspy
     u, r, d, p = rec[:4]
-    return laspy.VLR(u.decode("ascii"), r, d.decode("ascii"), p)
+    return laspy.VLR(u.decode("ascii"), r, d.decode("ascii"), as_payload(p))
+
+
+class _Leave(Exception):
+    """raised inside a with block to leave it by an exception"""
+
+
+WRITE_VIAS = ["write", "disk", "writer", "writer-noevlrs", "write-twice", "write-copy", "write-shared", "write-nocompress",
+              "write-header-evlrs", "writer-class", "writer-path", "writer-raise", "writer-options"]
+
+
+def tmp_path(name):
+    os.makedirs(_TMP, exist_ok=True)
+    return os.path.join(_TMP, name)
 
 
 def write_file(via, las, evl, call_write_evlrs=True):
-    """one of the public ways of producing the file; returns its bytes"""
+    """one of the public ways of producing the file from a LasData and an EVLR list; returns its bytes"""
+    import copy
     import laspy
-    if via in ("write", "disk"):
+    if via.startswith("write") and not via.startswith("writer"):
+        if evl is not None:
+            if via == "write-header-evlrs":
+                las.header.evlrs = evl
+            else:
+                las.evlrs = evl
+        buf = io.BytesIO()
+        if via == "write-twice":
+            # the same object written twice: the second file is the one kept (and must be the first one again)
+            las.write(io.BytesIO())
+            las.write(buf)
+        elif via == "write-copy":
+            # a LasData on a deep copy of the header (with its record lists)
+            laspy.LasData(copy.deepcopy(las.header), las.points).write(buf)
+        elif via == "write-shared":
+            # a second LasData on the same header object, the same record objects and the same EVLR list object is
+            # written first; then the one under test
+            other = laspy.LasData(las.header, las.points)
+            other.write(io.BytesIO())
+            las.write(buf)
+        elif via == "write-nocompress":
+            las.write(buf, do_compress=False)
+        else:
+            las.write(buf)
+        return buf.getvalue()
+    if via == "disk":
         if evl is not None:
             las.evlrs = evl
-        if via == "write":
-            buf = io.BytesIO()
-            las.write(buf)
-            return buf.getvalue()
-        os.makedirs(_TMP, exist_ok=True)
-        path = os.path.join(_TMP, "f.las")
+        path = tmp_path("f.las")
         try:
             las.write(path)
             with open(path, "rb") as f:
@@ -533,11 +703,46 @@ def write_file(via, las, evl, call_write_evlrs=True):
             if os.path.exists(path):
                 os.remove(path)
     buf = io.BytesIO()
-    with laspy.open(buf, mode="w", header=las.header, closefd=False) as w:
+    if via == "writer-class":
+        w = laspy.LasWriter(buf, las.header, closefd=False)
+        w.write_points(las.points)
+        if evl is not None:
+            w.write_evlrs(evl)
+        w.close()
+        return buf.getvalue()
+    if via == "writer-path":
+        path = tmp_path("w.las")
+        try:
+            with laspy.open(path, mode="w", header=las.header) as w:
+                w.write_points(las.points)
+                if evl is not None:
+                    w.write_evlrs(evl)
+            with open(path, "rb") as f:
+                return f.read()
+        finally:
+            if os.path.exists(path):
+                os.remove(path)
+    if via == "writer-raise":
+        # the with block is left by an exception after everything was handed over: the writer is closed all the same
+        try:
+            with laspy.open(buf, mode="w", header=las.header, closefd=False) as w:
+                w.write_points(las.points)
+                if evl is not None:
+                    w.write_evlrs(evl)
+                raise _Leave()
+        except _Leave:
+            pass
+        return buf.getvalue()
+    with laspy.open(buf, mode="w", header=las.header, closefd=False, **({"encoding_errors": "ignore", "do_compress": False} if via == "writer-options" else {})) as w:
         w.write_points(las.points)
         if evl is not None and via != "writer-noevlrs":
             w.write_evlrs(evl)
     return buf.getvalue()
+
+
+def is_writer_via(via):
+    """the EVLR list is handed to LasWriter.write_evlrs by the caller (not taken from the LasData)"""
+    return via.startswith("writer")
 
 
 def read_file(via, data):
@@ -548,6 +753,383 @@ def read_file(via, data):
     return laspy.read(io.BytesIO(data))
 
 
+# ---------------------------------------------------------------------------------
+# every way of opening / reading a file
+# ---------------------------------------------------------------------------------
+class NonSeekable:
+    """a source that can only be read forward (pipe, socket, HTTP body) and says so"""
+
+    def __init__(self, data):
+        self._b = io.BytesIO(data)
+
+    def read(self, n=-1):
+        return self._b.read(n)
+
+    def seekable(self):
+        return False
+
+    def close(self):
+        pass
+
+
+class ReadOnly:
+    """a source that offers read() and close() only"""
+
+    def __init__(self, data):
+        self._b = io.BytesIO(data)
+
+    def read(self, n=-1):
+        return self._b.read(n)
+
+    def close(self):
+        pass
+
+
+def _snaps(vlrs, evlrs):
+    return ([snap(v) for v in vlrs], None if evlrs is None else [snap(v) for v in evlrs])
+
+
+def _rt_read_bytes(d, p):
+    import laspy
+    r = laspy.read(d)
+    return _snaps(r.vlrs, r.evlrs)
+
+
+def _rt_read_path(d, p):
+    import laspy
+    r = laspy.read(p)
+    return _snaps(r.vlrs, r.evlrs)
+
+
+def _rt_read_pathlib(d, p):
+    import pathlib
+    import laspy
+    r = laspy.read(pathlib.Path(p))
+    return _snaps(r.vlrs, r.evlrs)
+
+
+def _rt_read_fileobj(d, p):
+    import laspy
+    with open(p, "rb") as f:
+        r = laspy.read(f, closefd=False)
+    return _snaps(r.vlrs, r.evlrs)
+
+
+def _rt_open_header(d, p):
+    import laspy
+    with laspy.open(io.BytesIO(d)) as rd:
+        return _snaps(rd.header.vlrs, rd.evlrs)
+
+
+def _rt_open_read(d, p):
+    import laspy
+    with laspy.open(io.BytesIO(d)) as rd:
+        r = rd.read()
+        return _snaps(r.vlrs, r.evlrs)
+
+
+def _rt_reader_class(d, p):
+    import laspy
+    rd = laspy.LasReader(io.BytesIO(d))
+    try:
+        r = rd.read()
+        return _snaps(r.vlrs, r.evlrs)
+    finally:
+        rd.close()
+
+
+def _rt_reader_class_deferred(d, p):
+    import laspy
+    rd = laspy.LasReader(io.BytesIO(d), read_evlrs=False)
+    try:
+        r = rd.read()
+        return _snaps(r.vlrs, r.evlrs)
+    finally:
+        rd.close()
+
+
+def _rt_deferred_read(d, p):
+    import laspy
+    with laspy.open(io.BytesIO(d), read_evlrs=False) as rd:
+        r = rd.read()
+        return _snaps(r.vlrs, r.evlrs)
+
+
+def _rt_deferred_read_path(d, p):
+    import laspy
+    with laspy.open(p, read_evlrs=False) as rd:
+        r = rd.read()
+        return _snaps(r.vlrs, r.evlrs)
+
+
+def _rt_deferred_chunks(d, p):
+    import laspy
+    with laspy.open(io.BytesIO(d), read_evlrs=False) as rd:
+        for _ in rd.chunk_iterator(2):
+            pass
+        r = rd.read()
+        return _snaps(r.vlrs, r.evlrs)
+
+
+def _rt_deferred_some_chunks(d, p):
+    import laspy
+    with laspy.open(io.BytesIO(d), read_evlrs=False) as rd:
+        for _ in rd.chunk_iterator(3):
+            break
+        r = rd.read()
+        return _snaps(r.vlrs, r.evlrs)
+
+
+def _rt_deferred_points(d, p):
+    import laspy
+    with laspy.open(io.BytesIO(d), read_evlrs=False) as rd:
+        rd.read_points(1)
+        r = rd.read()
+        return _snaps(r.vlrs, r.evlrs)
+
+
+def _rt_deferred_explicit(d, p):
+    import laspy
+    with laspy.open(io.BytesIO(d), read_evlrs=False) as rd:
+        rd.read_points(2)
+        rd.read_evlrs()
+        return _snaps(rd.header.vlrs, rd.evlrs)
+
+
+def _rt_deferred_seek(d, p):
+    import laspy
+    with laspy.open(io.BytesIO(d), read_evlrs=False) as rd:
+        if rd.header.point_count > 0:
+            rd.read_points(-1)
+            rd.seek(0)
+        r = rd.read()
+        return _snaps(r.vlrs, r.evlrs)
+
+
+def _rt_deferred_twice(d, p):
+    import laspy
+    with laspy.open(io.BytesIO(d), read_evlrs=False) as rd:
+        rd.read()
+        rd.read_evlrs()
+        r = rd.read()
+        return _snaps(r.vlrs, r.evlrs)
+
+
+def _rt_open_twice(d, p):
+    import laspy
+    with laspy.open(io.BytesIO(d)) as rd:
+        rd.read()
+        r = rd.read()
+        return _snaps(r.vlrs, r.evlrs)
+
+
+def _rt_open_chunks(d, p):
+    import laspy
+    with laspy.open(io.BytesIO(d)) as rd:
+        for _ in rd.chunk_iterator(2):
+            pass
+        r = rd.read()
+        return _snaps(r.vlrs, r.evlrs)
+
+
+def _rt_header_read_from(d, p):
+    import laspy
+    h = laspy.LasHeader.read_from(io.BytesIO(d), read_evlrs=True)
+    return _snaps(h.vlrs, h.evlrs)
+
+
+def _rt_mmap(d, p):
+    import laspy
+    with laspy.mmap(p) as m:
+        return _snaps(m.vlrs, m.evlrs)
+
+
+def _rt_nonseekable(d, p):
+    import laspy
+    r = laspy.read(NonSeekable(d))
+    return _snaps(r.vlrs, r.evlrs)
+
+
+def _rt_nonseekable_chunks(d, p):
+    import laspy
+    with laspy.open(NonSeekable(d)) as rd:
+        for _ in rd.chunk_iterator(2):
+            pass
+        r = rd.read()
+        return _snaps(r.vlrs, r.evlrs)
+
+
+def _rt_readonly(d, p):
+    import laspy
+    r = laspy.read(ReadOnly(d))
+    return _snaps(r.vlrs, r.evlrs)
+
+
+# (name, function, needs a path, reads forward only)
+ROUTES = [
+    ("laspy.read(bytes)", _rt_read_bytes, False, False),
+    ("laspy.read(path)", _rt_read_path, True, False),
+    ("laspy.read(pathlib.Path)", _rt_read_pathlib, True, False),
+    ("laspy.read(file object)", _rt_read_fileobj, True, False),
+    ("laspy.open(stream): header only", _rt_open_header, False, False),
+    ("laspy.open(stream).read()", _rt_open_read, False, False),
+    ("laspy.open(stream): chunk_iterator, read()", _rt_open_chunks, False, False),
+    ("LasReader(stream).read()", _rt_reader_class, False, False),
+    ("LasReader(stream, read_evlrs=False).read()", _rt_reader_class_deferred, False, False),
+    ("laspy.open(stream, read_evlrs=False).read()", _rt_deferred_read, False, False),
+    ("laspy.open(path, read_evlrs=False).read()", _rt_deferred_read_path, True, False),
+    ("laspy.open(stream, read_evlrs=False): chunk_iterator, read()", _rt_deferred_chunks, False, False),
+    ("laspy.open(stream, read_evlrs=False): first chunk, read()", _rt_deferred_some_chunks, False, False),
+    ("laspy.open(stream, read_evlrs=False): read_points(1), read()", _rt_deferred_points, False, False),
+    ("laspy.open(stream, read_evlrs=False): read_points(2), read_evlrs()", _rt_deferred_explicit, False, False),
+    ("laspy.open(stream, read_evlrs=False): read_points(-1), seek(0), read()", _rt_deferred_seek, False, False),
+    ("laspy.open(stream, read_evlrs=False): read(), read_evlrs(), read()", _rt_deferred_twice, False, False),
+    ("laspy.open(stream): read() twice", _rt_open_twice, False, False),
+    ("LasHeader.read_from(stream, read_evlrs=True)", _rt_header_read_from, False, False),
+    ("laspy.mmap(path)", _rt_mmap, True, False),
+    ("laspy.read(non-seekable source)", _rt_nonseekable, False, True),
+    ("laspy.open(non-seekable source): chunk_iterator, read()", _rt_nonseekable_chunks, False, True),
+    ("laspy.read(source offering read() only)", _rt_readonly, False, True),
+]
+ROUTE_FORWARD = {n: fw for n, _, _, fw in ROUTES}
+
+
+def pick_routes(sel, salt):
+    """sel = "all" | [k, seed]: k routes drawn with a generator seeded by (seed, salt)"""
+    if sel is None:
+        return []
+    if sel == "all":
+        return list(range(len(ROUTES)))
+    import random
+    k, seed = sel
+    return sorted(random.Random(seed * 1000003 + salt).sample(range(len(ROUTES)), min(k, len(ROUTES))))
+
+
+def read_routes(data, idxs):
+    """-> {route name: {"vl", "el"} | {"err"}} for the chosen routes"""
+    out = {}
+    if not idxs:
+        return out
+    path = None
+    if any(ROUTES[i][2] for i in idxs):
+        path = tmp_path("r.las")
+        with open(path, "wb") as f:
+            f.write(data)
+    try:
+        for i in idxs:
+            name, fn = ROUTES[i][0], ROUTES[i][1]
+            try:
+                vl, el = fn(data, path)
+                out[name] = {"vl": vl, "el": el}
+            except Exception as ex:  # noqa
+                out[name] = {"err": f"{common.exc_kind(ex)}: {type(ex).__name__}: {ex}"[:200]}
+    finally:
+        if path is not None and os.path.exists(path):
+            os.remove(path)
+    return out
+
+
+GAP_FILLS = ["zero", "ff", "rand", "record"]
+
+
+def gap_bytes(fill, n):
+    """n bytes of something that is not an EVLR of the file: zeros, 0xFF, noise, or a well-formed EVLR of its own (a decoy)"""
+    import random
+    if fill == "zero":
+        return bytes(n)
+    if fill == "ff":
+        return b"\xff" * n
+    if fill == "rand":
+        return random.Random(n).getrandbits(8 * n).to_bytes(n, "little") if n else b""
+    decoy = b"\0\0" + b"decoy".ljust(16, b"\0") + (4242).to_bytes(2, "little") + max(0, n - 60).to_bytes(8, "little") + b"not a record of the file".ljust(32, b"\0")
+    return (decoy + b"\x55" * max(0, n - 60))[:n] if n >= 60 else decoy[:n]
+
+
+def spread(data, spec):
+    """the same file as other software may lay it out: spec = [fill, gap, tail, sig]: gap bytes between the last point
+    and the first EVLR (start_of_first_evlr moved accordingly) and tail bytes behind the last EVLR (both only for a 1.4
+    file that has EVLRs); sig: the two reserved bytes in front of every record are 0xAABB (the record signature of
+    LAS 1.0) instead of 0"""
+    if not spec:
+        return data
+    fill, gap, tail = spec[:3]
+    sig = len(spec) > 3 and spec[3]
+    out = bytearray(data)
+    if sig:
+        hs = int.from_bytes(data[94:96], "little")
+        pos = hs
+        for _ in range(int.from_bytes(data[100:104], "little")):
+            out[pos:pos + 2] = b"\xbb\xaa"
+            pos += 54 + int.from_bytes(data[pos + 20:pos + 22], "little")
+    if data[25] >= 4:
+        nev = int.from_bytes(data[243:247], "little")
+        est = int.from_bytes(data[235:243], "little")
+        if nev and est:
+            if sig:
+                pos = est
+                for _ in range(nev):
+                    out[pos:pos + 2] = b"\xbb\xaa"
+                    pos += 60 + int.from_bytes(data[pos + 20:pos + 28], "little")
+            out = bytearray(bytes(out[:est]) + gap_bytes(fill, gap) + bytes(out[est:]) + gap_bytes("rand" if fill != "rand" else "ff", tail))
+            out[235:243] = (est + gap).to_bytes(8, "little")
+    return bytes(out)
+
+
+# ---------------------------------------------------------------------------------
+# append sessions
+# ---------------------------------------------------------------------------------
+def append_session(data, st):
+    """laspy.open(mode="a") (or LasAppender) on the file, the EVLR list edited, chunks appended, closed -> (bytes of the
+    file afterwards, error | None)"""
+    import laspy
+    from laspy.lasappender import LasAppender
+    how, end = st.get("open", "stream"), st.get("end", "with")
+    buf, path = None, None
+    if how == "path":
+        path = tmp_path("a.las")
+        with open(path, "wb") as f:
+            f.write(data)
+    else:
+        buf = io.BytesIO(data)
+
+    def session(app):
+        for ed in st["edits"]:
+            apply_edit_impl(app, ed)
+        for c in st["chunks"]:
+            app.append_points(laspy.PackedPointRecord.zeros(c, app.header.point_format))
+
+    err = None
+    try:
+        if how == "class":
+            app = LasAppender(buf, closefd=False)
+        elif how == "path":
+            app = laspy.open(path, mode="a")
+        else:
+            app = laspy.open(buf, mode="a", closefd=False)
+        if end == "close":
+            session(app)
+            app.close()
+        elif end == "raise":
+            try:
+                with app:
+                    session(app)
+                    raise _Leave()
+            except _Leave:
+                pass
+        else:
+            with app:
+                session(app)
+    except Exception as ex:  # noqa
+        err = f"{common.exc_kind(ex)}: {type(ex).__name__}: {ex}"[:200]
+    if path is not None:
+        with open(path, "rb") as f:
+            out = f.read()
+        os.remove(path)
+    else:
+        out = buf.getvalue()
+    return out, err
+
+
 def steps_of(case):
     return case["steps"] if "steps" in case else [{"via": case["via"], "edits": []}]
 
@@ -555,6 +1137,11 @@ def steps_of(case):
 def new_item(rec, sids):
     sids[0] += 1
     return {"rec": rec, "k": False, "sid": sids[0]}
+
+
+def file_owned(uid, rid):
+    """records the file machinery owns when they sit in the VLR list (never duplicated there)"""
+    return (uid == U_SPEC and rid == 4) or (uid == U_LASZIP and rid == 22204)
 
 
 def apply_edit(v, e, ed, sids):
@@ -578,15 +1165,41 @@ def apply_edit(v, e, ed, sids):
         if l:
             x = l.pop(ed[2] % len(l))
             l.insert(ed[3] % (len(l) + 1), x)
+    elif op == "set":
+        # the payload of a record of no known type is edited in place; any other record is replaced (l[i] = ...) by a new one
+        if l:
+            i = ed[2] % len(l)
+            old = l[i]["rec"]
+            if old[4] in RAW_TAGS:
+                # every position that holds this very object shows the new payload
+                oid = l[i].get("oid", l[i]["sid"])
+                for j in range(len(l)):
+                    if l[j].get("oid", l[j]["sid"]) == oid:
+                        l[j] = dict(new_item((old[0], old[1], old[2], ed[3], old[4]), sids), oid=oid)
+            else:
+                l[i] = new_item(tuple(ed[4]), sids)
+    elif op == "dup":
+        # the same record object a second time in the list
+        if l:
+            x = l[ed[2] % len(l)]
+            if not (which == "v" and file_owned(x["rec"][0], x["rec"][1])):
+                sids[0] += 1
+                l.insert(ed[3] % (len(l) + 1), dict(x, sid=sids[0], dup=x["sid"], oid=x.get("oid", x["sid"])))
     return (l, e) if which == "v" else (v, l)
 
 
 def apply_edit_impl(las, ed):
+    """las: anything that holds the lists as .vlrs / .evlrs (LasData, LasAppender)"""
     from laspy.vlrs.vlrlist import VLRList
     op, which = ed[0], ed[1]
     l = las.vlrs if which == "v" else las.evlrs
     if l is None:
-        return
+        if which == "e" and op in ("ins", "new"):
+            # a file that had no EVLRs gets a list
+            las.evlrs = VLRList()
+            l = las.evlrs
+        else:
+            return
     if op == "del":
         if len(l):
             l.pop(ed[2] % len(l))
@@ -605,25 +1218,53 @@ def apply_edit_impl(las, ed):
         if len(l):
             x = l.pop(ed[2] % len(l))
             l.insert(ed[3] % (len(l) + 1), x)
+    elif op == "set":
+        if len(l):
+            i = ed[2] % len(l)
+            if type(l[i]).__name__ == "VLR" and not is_known_id(sb(l[i].user_id), int(l[i].record_id)):
+                l[i].record_data = ed[3]
+            else:
+                l[i] = mk_vlr(ed[4])
+    elif op == "dup":
+        if len(l):
+            x = l[ed[2] % len(l)]
+            if not (which == "v" and file_owned(sb(x.user_id), int(x.record_id))):
+                l.insert(ed[3] % (len(l) + 1), x)
+
+
+def aged(x):
+    """the item one generation later: it went through the reader"""
+    y = {k: w for k, w in x.items() if k not in ("dup", "oid")}
+    y["k"] = True
+    return y
 
 
 def history(case):
-    """the record lists every generation of the file is expected to hold: [(vlr items, evlr items | None, via, handed)];
-    handed = whether an EVLR list is handed to the writer at all. item = {rec, k: went through the reader, sid}"""
+    """the record lists every generation of the file is expected to hold:
+    [(vlr items, evlr items | None, via, handed, info)]; handed = whether an EVLR list is handed to the writer at all;
+    info = {"ver": version of the file, "step": the step that produced it | None}. item = {rec, k: went through the
+    reader, sid}"""
     sids = [0]
+    ver = case["version"]
     v = [new_item(r, sids) for r in case["recs"]]
     e = None if case["erecs"] is None else [new_item(r, sids) for r in case["erecs"]]
-    gens = [(v, e if e is not None or case["version"] != "1.4" else [], case["via"], e is not None)]
+    gens = [(v, e if e is not None or ver != "1.4" else [], case["via"], e is not None, {"ver": ver, "step": None})]
     for st in steps_of(case):
-        v = [dict(x, k=True) for x in v]
+        v = [aged(x) for x in v]
         # a 1.4 file always reads back with an EVLR list (empty when it has none)
-        e = [dict(x, k=True) for x in e] if e is not None else ([] if case["version"] == "1.4" else None)
+        e = [aged(x) for x in e] if e is not None else ([] if ver == "1.4" else None)
+        if st["via"] == "convert":
+            ver = st["to"][1]
+            if ver != "1.4":
+                e = None        # "they will be lost as version .. does not support them"
+            elif e is None:
+                e = []
         for ed in st["edits"]:
             v, e = apply_edit(v, e, ed, sids)
         handed = e is not None and st["via"] != "writer-noevlrs"
         if e is not None and not handed:
             e = []
-        gens.append((v, e, st["via"], handed))
+        gens.append((v, e, st["via"], handed, {"ver": ver, "step": st}))
     return gens
 
 
@@ -638,9 +1279,14 @@ def raw_locator(data):
     return hs, loc
 
 
-def read_gen(via, data):
-    g = {"file": data}
-    g["hs"], g["loc"] = raw_locator(data)
+def read_gen(via, data0, spec=None, routes=None, salt=0):
+    """data0 = the file as laspy wrote it; it is read as laid out by spec (see spread), by the route that goes with via
+    and by the routes chosen"""
+    g = {"file0": data0}
+    g["hs"], g["loc0"] = raw_locator(data0)
+    data = spread(data0, spec)
+    g["file"] = data
+    g["loc"] = raw_locator(data)[1]
     try:
         r = read_file(via, data)
     except Exception as ex:  # noqa
@@ -650,16 +1296,72 @@ def read_gen(via, data):
     g["el"] = None if r.evlrs is None else [snap(v) for v in r.evlrs]
     g["npts"] = len(r.points) * int(r.header.point_format.size)
     g["hdr"] = (int(r.header.offset_to_point_data), int(r.header.number_of_evlrs), int(r.header.start_of_first_evlr))
+    g["routes"] = read_routes(data, pick_routes(routes, salt))
+    g["api"] = ["vlrs." + x for x in api_views(r.vlrs)] + ["evlrs." + x for x in api_views(r.evlrs)]
     return g, r
 
 
+def api_views(l):
+    """the selecting methods of VLRList give the records of the list, in its order, nothing else: -> problems found"""
+    from laspy.vlrs.vlrlist import VLRList
+    bad = []
+    if l is None:
+        return bad
+    items = list(l)
+    try:
+        for uid in {v.user_id for v in items if v.user_id != ""}:     # "" selects every user id (documented default)
+            want = [v for v in items if v.user_id == uid]
+            got = l.get_by_id(uid)
+            if len(got) != len(want) or any(a is not b for a, b in zip(got, want)):
+                bad.append(f"get_by_id({uid!r}) gives {len(got)} records, the list holds {len(want)} with this user id")
+            rid = want[-1].record_id
+            want2 = [v for v in want if v.record_id == rid]
+            got = l.get_by_id(uid, (rid,))
+            if len(got) != len(want2) or any(a is not b for a, b in zip(got, want2)):
+                bad.append(f"get_by_id({uid!r}, ({rid},)) gives {len(got)} records, the list holds {len(want2)}")
+        got = l.get_by_id()
+        if len(got) != len(items) or any(a is not b for a, b in zip(got, items)):
+            bad.append(f"get_by_id() gives {len(got)} of {len(items)} records")
+        for cls in {type(v).__name__ for v in items}:
+            want = [v for v in items if type(v).__name__ == cls]
+            got = l.get(cls)
+            if len(got) != len(want) or any(a is not b for a, b in zip(got, want)):
+                bad.append(f"get({cls!r}) gives {len(got)} records, the list holds {len(want)} of this class")
+            if l.index(cls) != next(i for i, v in enumerate(items) if type(v).__name__ == cls):
+                bad.append(f"index({cls!r}) is {l.index(cls)}")
+            c = VLRList(items)
+            ex = c.extract(cls)
+            rest = [v for v in items if type(v).__name__ != cls]
+            if len(ex) != len(want) or any(a is not b for a, b in zip(ex, want)) or len(c) != len(rest) or any(a is not b for a, b in zip(c, rest)):
+                bad.append(f"extract({cls!r}) takes {len(ex)} records and leaves {len(c)}; the list holds {len(want)} of this class and {len(rest)} others")
+        c = l.copy()
+        if len(c) != len(items) or any(a is not b for a, b in zip(c, items)):
+            bad.append(f"copy() holds {len(c)} of {len(items)} records")
+    except Exception as ex:  # noqa
+        bad.append(f"{type(ex).__name__}: {ex}"[:200])
+    return bad
+
+
+def lists_after(data):
+    """what laspy.read gives for the file, as comparable snapshots (or the error)"""
+    import laspy
+    try:
+        r = laspy.read(io.BytesIO(data))
+        return {"vl": [snap(v) for v in r.vlrs], "el": None if r.evlrs is None else [snap(v) for v in r.evlrs],
+                "npts": len(r.points) * int(r.header.point_format.size)}
+    except Exception as ex:  # noqa
+        return {"err": f"{common.exc_kind(ex)}: {type(ex).__name__}: {ex}"[:200]}
+
+
 def run_file(case):
-    """-> {"gens": [generation]}; generation = {"werr"} | {"file", "hs", "loc", "rerr" | ("vl", "el", "npts", "hdr")};
-    the run ends with the first write that is refused, the first file that cannot be read, or a "skipped" note"""
+    """-> {"gens": [generation]}; generation = {"werr"} | {"file0", "file", "hs", "loc0", "loc", "rerr" | ("vl", "el",
+    "npts", "hdr", "routes")}; the run ends with the first write that is refused, the first file that cannot be read,
+    or a "skipped" note"""
     import laspy
     import numpy as np
     from laspy.vlrs.known import ExtraBytesVlr
     from laspy.vlrs.vlrlist import VLRList
+    _PTYPES[0], _PTYPES[1] = bool(case.get("ptypes")), 0
     header = laspy.LasHeader(point_format=case["fmt"], version=case["version"])
     eb = [r for r in case["recs"] if r[4].startswith("extra/")]
     if eb:
@@ -667,7 +1369,7 @@ def run_file(case):
         v = ExtraBytesVlr()
         v.parse_record_data(eb[0][3])
         header.add_extra_dims(v.type_of_extra_dims())
-    las = laspy.LasData(header)
+    las = laspy.LasData(header) if eb or case.get("make") != "create" else laspy.create(point_format=case["fmt"], file_version=case["version"])
     n = case["points"]
     las.x = np.arange(n, dtype=np.float64)
     las.y = np.arange(n, dtype=np.float64) * 2
@@ -677,32 +1379,45 @@ def run_file(case):
     las.vlrs.extend(mk_vlrs(case["recs"]))
     evl = mk_vlrs(case["erecs"]) if case["erecs"] is not None else None
     res = {"gens": []}
+    routes = case.get("routes")
     try:
         data = write_file(case["via"], las, evl)
     except Exception as ex:  # noqa
         res["gens"].append({"werr": common.exc_kind(ex)})
         return res
-    g, r = read_gen(case["via"], data)
+    g, r = read_gen(case["via"], data, case.get("spread"), routes, 0)
     res["gens"].append(g)
     allrecs = list(case["recs"]) + list(case["erecs"] or [])
-    for st in steps_of(case):
+    for si, st in enumerate(steps_of(case)):
         if r is None:
             break
         if outgrew(allrecs, g["vl"] + (g["el"] or [])):
             res["skipped"] = "serialisations outgrew the payloads"
             break
         for ed in st["edits"]:
-            apply_edit_impl(r, ed)
             if ed[0] == "ins":
                 allrecs.append(ed[3])
             elif ed[0] == "new":
                 allrecs += list(ed[2])
-        try:
-            data = write_file(st["via"], r, None if st["via"] in ("write", "disk") else r.evlrs)
-        except Exception as ex:  # noqa
-            res["gens"].append({"werr": common.exc_kind(ex)})
-            break
-        g, r = read_gen(st["via"], data)
+            elif ed[0] == "set":
+                allrecs.append(ed[4])
+        if st["via"] == "append":
+            data, err = append_session(g["file"], st)
+            if err is not None:
+                res["gens"].append({"werr": err.split(":")[0], "werr_text": err, "after": lists_after(data)})
+                break
+        else:
+            try:
+                if st["via"] == "convert":
+                    r = laspy.convert(r, point_format_id=st["to"][0], file_version=st["to"][1] if st["to"][2] else None)
+                for ed in st["edits"]:
+                    apply_edit_impl(r, ed)
+                via = "write" if st["via"] == "convert" else st["via"]
+                data = write_file(via, r, r.evlrs if is_writer_via(via) else None)
+            except Exception as ex:  # noqa
+                res["gens"].append({"werr": common.exc_kind(ex)})
+                break
+        g, r = read_gen(st["via"], data, st.get("spread"), routes, si + 1)
         res["gens"].append(g)
     return res
 
@@ -727,7 +1442,7 @@ def runs(ctx):
                 res = {"crash": f"{type(ex).__name__}: {ex}", "tb": traceback.format_exc()[-600:]}
             _RUNS.append((case, res))
             try:
-                failed = bool(oracle(case, res))
+                failed = any(not k.startswith(FINDING_PREFIXES) for k, _ in oracle(case, res))
             except Exception:  # noqa
                 failed = True
             if failed:
@@ -754,9 +1469,16 @@ def map_recs(case, f):
     if "erecs" in case:
         out["erecs"] = None if case["erecs"] is None else f(case["erecs"])
     if "steps" in case:
-        out["steps"] = [{"via": st["via"], "edits": [
-            [ed[0], ed[1], ed[2], f([ed[3]])[0]] if ed[0] == "ins" else [ed[0], ed[1], f(ed[2])] if ed[0] == "new" else list(ed)
-            for ed in st["edits"]]} for st in case["steps"]]
+        def fed(ed):
+            if ed[0] == "ins":
+                return [ed[0], ed[1], ed[2], f([ed[3]])[0]]
+            if ed[0] == "new":
+                return [ed[0], ed[1], f(ed[2])]
+            if ed[0] == "set":
+                # the payload travels as a record (so that every f that maps records maps it)
+                return [ed[0], ed[1], ed[2], f([(b"", 0, b"", ed[3], "unknown")])[0][3], f([ed[4]])[0]]
+            return list(ed)
+        out["steps"] = [dict(st, edits=[fed(ed) for ed in st["edits"]]) for st in case["steps"]]
     return out
 
 
@@ -820,49 +1542,99 @@ HEADER_SIZES = {"1.1": 227, "1.2": 227, "1.3": 235, "1.4": 375}
 
 def correspond_file(case, res, dis):
     """every generation against the file model: write_file_known (the lists as they are now, through a header whose
-    EVLR fields are those of the previous generation) then read_file"""
+    EVLR fields are those of the previous generation) or append_file (on the bytes of the previous generation), then
+    read_file; and every route of reading against read_file / read_file_from on the bytes that were read"""
     def add(kind, model, impl):
-        dis.append({"kind": f"file: {kind}", "input": case_json(case), "model": str(model)[:300], "impl": str(impl)[:300]})
-    hs, v14 = HEADER_SIZES[case["version"]], case["version"] == "1.4"
+        dis.append({"kind": kind if kind.startswith(FINDING_PREFIXES) else f"file: {kind}", "input": case_json(case), "model": str(model)[:300], "impl": str(impl)[:300]})
     hist = history(case)
-    cmds, stale = [], (0, 0)
-    for gi, ((v, e, via, handed), g) in enumerate(zip(hist, res["gens"])):
+    cmds, what, stale, gprev = [], [], (0, 0), None
+    for gi, ((v, e, via, handed, info), g) in enumerate(zip(hist, res["gens"])):
+        hs, v14 = HEADER_SIZES[info["ver"]], info["ver"] == "1.4"
         # the points are not under test: as many bytes as the implementation wrote (0 when it wrote nothing)
         npts = g.get("npts", 0)
-        # the EVLR list handed to the writer is the one of the history BEFORE "not handed" emptied it; its content is
-        # irrelevant then (none), so the expected list is used
-        cmds.append(f"file {hs} {'T' if v14 else 'F'} {stale[0]} {stale[1]} {items_tok(v)} {npts} {items_tok(e) if handed else 'none'}")
+        if via == "append":
+            b0 = gprev["file"]
+            p0 = gprev["loc"][1] + gprev["npts"]
+            newpts = g["file0"][p0:p0 + npts - gprev["npts"]] if "file0" in g else b""
+            cmds.append(f"append {hs} {'T' if v14 else 'F'} {gprev['loc'][0]} {gprev['loc'][1]} {gprev['loc'][2]} {gprev['loc'][3]} "
+                        f"{gprev['npts']} {hx(b0[hs:])} {hx(newpts)} {items_tok(e) if e is not None else 'none'}")
+            what.append((gi, "append"))
+        else:
+            # the EVLR list handed to the writer is the one of the history BEFORE "not handed" emptied it; its content is
+            # irrelevant then (none), so the expected list is used
+            cmds.append(f"file {hs} {'T' if v14 else 'F'} {stale[0]} {stale[1]} {items_tok(v)} {npts} {items_tok(e) if handed else 'none'}")
+            what.append((gi, "file"))
         if "loc" in g:
             stale = (g["loc"][2], g["loc"][3])
+        if "vl" in g and (g.get("routes") or g["file"] != g["file0"]):
+            cmds.append(f"readfile {hs} {'T' if v14 else 'F'} {g['loc'][0]} {g['loc'][1]} {g['loc'][2]} {g['loc'][3]} {g['loc'][1] + npts} {hx(g['file'][hs:])}")
+            what.append((gi, "readfile"))
+        gprev = g
     outs = common.run_model(cmds, name="c08")
-    for gi, ((v, e, via, handed), g, mo) in enumerate(zip(hist, res["gens"], outs)):
+    stop = None
+    for (gi, cmd), mo in zip(what, outs):
+        if stop is not None and gi >= stop:
+            break
+        (v, e, via, handed, info), g = hist[gi], res["gens"][gi]
+        hs = HEADER_SIZES[info["ver"]]
         at = f"generation {gi} ({via})"
+        if cmd == "readfile":
+            seek, fwd = mo.split(" # ")
+            laid = has_gap(g)
+
+            def toks(vl, el):
+                return "ok " + ("|".join(snap_tok(x) for x in vl) if vl else "-") + " " + ("none" if el is None else ("|".join(snap_tok(x) for x in el) if el else "-"))
+            if toks(g["vl"], g["el"]) != seek:
+                add(f"records read from the file as laid out differ ({at})", seek[:300], toks(g["vl"], g["el"])[:300])
+            for name, rr in g.get("routes", {}).items():
+                want = fwd if ROUTE_FORWARD.get(name) else seek
+                got = "rerr " + rr["err"] if "err" in rr else toks(rr["vl"], rr["el"])
+                if got != want:
+                    pre = "nonseekable-evlr-gap: " if laid and ROUTE_FORWARD.get(name) else ""
+                    add(f"{pre}{name}: records differ from the model's ({at}{', bytes between points and EVLRs' if laid else ''})", want[:300], got[:300])
+            continue
         if not mo.startswith("ok "):
             merr = mo.split()[1] if mo.startswith("err ") else mo
             if g.get("werr") != merr:
                 add(f"write refused by the model only ({at})" if "werr" not in g else f"different write error ({at})", mo, g.get("werr"))
-            return
+            stop = gi
+            continue
         if "werr" in g:
-            add(f"write refused by the implementation only ({at})", mo[:80], g["werr"])
-            return
-        _, nvlr, off, nev, est, blen, vb, eb, vrecs, erecs = mo.split(" ")
+            add(f"write refused by the implementation only ({at})", mo[:80], g.get("werr_text", g["werr"]))
+            stop = gi
+            continue
+        if cmd == "append":
+            _, nvlr, off, nev, est, body, vrecs, erecs = mo.split(" ")
+            body = common.unhex(body)
+            vb, eb, blen = body[:int(off) - hs], (body[int(est) - hs:] if int(nev) else b""), len(body)
+        else:
+            _, nvlr, off, nev, est, blen, vb, eb, vrecs, erecs = mo.split(" ")
+            vb, eb, body = common.unhex(vb), common.unhex(eb), None
         mloc = [int(nvlr), int(off), int(nev), int(est)]
-        if g["hs"] != hs or g["loc"] != mloc:
-            add(f"header fields that locate the records differ ({at}): [number of VLRs, offset to points, number of EVLRs, start of first EVLR]", mloc, g["loc"])
-            return
-        vb, eb = common.unhex(vb), common.unhex(eb)
-        data = g["file"]
+        if g["hs"] != hs or g["loc0"] != mloc:
+            add(f"header fields that locate the records differ ({at}): [number of VLRs, offset to points, number of EVLRs, start of first EVLR]", mloc, g["loc0"])
+            stop = gi
+            continue
+        data = g["file0"]
         if data[hs:hs + len(vb)] != vb:
             add(f"VLR bytes are not the model's, right after the header ({at})", hx(vb)[:200], hx(data[hs:hs + len(vb)])[:200])
-            return
+            stop = gi
+            continue
         if "rerr" in g:
             add(f"written file cannot be read ({at})", mo[:80], g["rerr"])
-            return
+            stop = gi
+            continue
         if len(data) != hs + int(blen) or (mloc[2] and data[mloc[3]:] != eb):
             add(f"EVLR bytes are not the model's at start_of_first_evlr ({at})", f"{hs + int(blen)} bytes, evlrs {hx(eb)[:160]}", f"{len(data)} bytes, {hx(data[mloc[3]:])[:160] if mloc[2] else ''}")
-            return
-        if g["hdr"] != (mloc[1], mloc[2], mloc[3]):
-            add(f"header object read differs from the header bytes ({at})", mloc, g["hdr"])
+            stop = gi
+            continue
+        if body is not None and data[hs:] != body:
+            add(f"the file left by the append session is not the model's ({at})", f"first difference at {hs + first_diff(body, data[hs:])}", "")
+            stop = gi
+            continue
+        loc = g["loc"]
+        if g["hdr"] != (loc[1], loc[2], loc[3]):
+            add(f"header object read differs from the header bytes ({at})", loc, g["hdr"])
         for where, items, mrecs, snaps in (("vlrs", v, vrecs, g["vl"]), ("evlrs", e, erecs, g["el"])):
             irecs = "none" if snaps is None else ("|".join(snap_tok(x) for x in snaps) if snaps else "-")
             if irecs != mrecs:
@@ -870,7 +1642,8 @@ def correspond_file(case, res, dis):
                 j = next((i for i in range(min(len(ml), len(il))) if ml[i] != il[i]), min(len(ml), len(il)))
                 tag = items[j]["rec"][4] if items and j < len(items) else "count"
                 add(f"{where}: record read back differs ({tag}) ({at})", ml[j][:300] if j < len(ml) else "<none>", il[j][:300] if j < len(il) else "<none>")
-                return
+                stop = gi
+                break
 
 
 def correspond(ctx):
@@ -880,14 +1653,26 @@ def correspond(ctx):
         "WKT records, LasZip; bursts of the same class; near-miss records = a parsable known-class payload under a user id that "
         "differs from the official one by blanks / case / one character, or under a neighbouring record id; unknown records "
         "with exact, near-miss and random user ids of every length 0..16 incl. punctuation, descriptions of every length 0..32, "
-        "record ids around the official ones, payloads empty/1/65535/65536 bytes) written and read through VLRList (VLR and "
-        "EVLR form) and attached to real 1.2/1.3/1.4 files (30% with extra dimensions whose extra-bytes record, with arbitrary "
-        "descriptor bytes, sits anywhere in the VLR list) written by LasData.write (stream and disk) or LasWriter "
-        "(write_evlrs called or not) and read by laspy.read / laspy.open, then carried through 1..3 further generations: the "
-        "lists that were read are edited (remove / insert / clear / replace / reverse / move, incl. removing every EVLR) and "
-        "written through the header that was read; all in one process; plus the dispatch of (user id, record id) pairs and "
-        "serialisation of user-built lookups. non-trivial = two or more records, or a known-class record, or a full-width "
-        "id/description, or a payload at the length limit, or a history with edits; distinct by (placement, records, history)")
+        "record ids around the official ones, payloads empty/1/65535/65536 bytes, handed over as bytes or bytearray) written and "
+        "read through VLRList (VLR and EVLR form) and attached to real 1.2/1.3/1.4 files (30% with extra dimensions whose "
+        "extra-bytes record, with arbitrary descriptor bytes, sits anywhere in the VLR list; built on LasHeader or laspy.create) "
+        "written by one of 13 ways of writing (LasData.write to stream / disk / twice / from a copied header / next to a second "
+        "LasData sharing header and lists / explicit options / list attached through the header; LasWriter by laspy.open, the "
+        "class, a path, with options, write_evlrs called or not, with block left by an exception), then carried through 1..3 "
+        "further generations: the lists that were read are edited (remove / insert / clear / replace / reverse / move / payload "
+        "edited in place or record replaced / same object twice, incl. removing every EVLR) and written again by one of those "
+        "ways, or converted (laspy.convert to another point format / version, incl. a downgrade that cannot keep EVLRs) and "
+        "written, or an append session is run on the file (laspy.open(mode='a') on a stream or path, or LasAppender; chunks of "
+        "0..3 points: none, only empty ones, some; the .evlrs list edited in every way, or given to a file that had none; closed "
+        "by with / close() / an exception); 1.4 files are in 30-35% of the generations laid out with 1..333 bytes (zeros, 0xFF, "
+        "noise, a decoy record) between the last point and the first EVLR and/or bytes behind the last EVLR and/or 0xAABB record "
+        "signatures before they are read; every generation is read by laspy.read(stream) and by 1-2 (dedicated cases: all 23) "
+        "other ways of opening: bytes, path, pathlib, file object, laspy.open / LasReader with EVLRs at opening or deferred "
+        "(read(), after chunk_iterator, after read_points, after seek, read_evlrs()), LasHeader.read_from, mmap, non-seekable "
+        "and read()-only sources; all in one process; plus the dispatch of (user id, record id) pairs and serialisation of "
+        "user-built lookups. non-trivial = two or more records, or a known-class record, or a full-width id/description, or a "
+        "payload at the length limit, or a history with edits / append sessions / a layout; distinct by (placement, records, "
+        "history incl. ways of writing, chunks, layout)")
     dis = []
     rs = runs(ctx)
     cmds, slots = [], []
@@ -900,9 +1685,11 @@ def correspond(ctx):
         ctx.traces += 1
         allrecs = list(case["recs"]) + list(case.get("erecs") or [])
         edits = [ed for st in steps_of(case) for ed in st["edits"]] if case["mode"] == "file" else []
+        special = case["mode"] == "file" and (bool(case.get("spread")) or any(st["via"] in ("append", "convert") or st.get("spread") for st in steps_of(case)))
         ctx.case((case["mode"], case.get("ext"), case.get("version"), case.get("via"), [(u, r, d, len(p), hash(p), t) for u, r, d, p, t in allrecs],
-                  repr([(st["via"], [(ed[0], ed[1], len(ed)) for ed in st["edits"]]) for st in steps_of(case)]) if case["mode"] == "file" else None),
-                 nontrivial=nontrivial(allrecs) or bool(edits),
+                  repr([case.get("spread"), case.get("make"), case.get("ptypes")]
+                       + [(st["via"], st.get("chunks"), st.get("open"), st.get("end"), st.get("to"), st.get("spread"), [(ed[0], ed[1], len(ed)) for ed in st["edits"]]) for st in steps_of(case)]) if case["mode"] == "file" else None),
+                 nontrivial=nontrivial(allrecs) or bool(edits) or special,
                  sample={"mode": case["mode"], "records": [[u.decode(), r, d.decode(), len(p), t] for u, r, d, p, t in allrecs[:4]],
                          "history": [[st["via"]] + [ed[0] + ":" + ed[1] for ed in st["edits"]] for st in steps_of(case)] if case["mode"] == "file" else None})
         ctx.count(f"{case['mode']}:{'evlr' if case.get('ext') else 'vlr'}" if case["mode"] == "list" else f"file:{case['version']}:{case['via']}")
@@ -915,6 +1702,17 @@ def correspond(ctx):
                 ctx.count(f"edit:{ed[0]}:{ed[1]}")
             for st in steps_of(case):
                 ctx.count("rewrite via " + st["via"])
+                if st["via"] == "append":
+                    ch = st["chunks"]
+                    ctx.count("append session: " + ("nothing appended" if not ch else "only empty chunks" if not any(ch) else "points appended")
+                              + (", EVLR list edited" if st["edits"] else ", list untouched"))
+            for sp in [case.get("spread")] + [st.get("spread") for st in steps_of(case)]:
+                if sp:
+                    ctx.count("layout: " + ", ".join(x for x in (f"gap ({sp[0]})" if sp[1] else "", "tail" if sp[2] else "", "0xAABB signatures" if len(sp) > 3 and sp[3] else "") if x))
+            for g in res.get("gens", []):
+                for name in g.get("routes", {}):
+                    ctx.count("read by " + name)
+                    ctx.traces += 1
             if any(r[4].startswith("extra/") for r in case["recs"]):
                 ctx.count("file with extra dimensions")
         if "crash" in res:
@@ -1076,15 +1874,74 @@ def oracle(case, res):
     return oracle_file(case, res)
 
 
+FINDING_PREFIXES = ("nonseekable-evlr-gap:", "append-resized-vlr:")
+
+
+def vlr_room_changes(g):
+    """the VLRs that were read do not serialise to the room they have in the file (between the header and the points)"""
+    room = g["loc"][1] - g["hs"]
+    need = sum(54 + len(x["data"] if x["cls"] == "VLR" else (x["ser"] or b"")) for x in g["vl"])
+    return room != need
+
+
+def has_gap(g):
+    """the first EVLR of the file that was read does not start where its points end"""
+    return g["loc"][2] > 0 and g["loc"][3] != g["loc"][1] + g.get("npts", 0)
+
+
+def check_routes(g, at):
+    """every way of opening / reading the file gives the lists laspy.read(stream) gives"""
+    laid = has_gap(g)
+    bad = {}
+    for name, rr in g.get("routes", {}).items():
+        if "err" in rr:
+            what, obs = "fails", rr["err"]
+        elif rr["vl"] != g["vl"]:
+            what, obs = "gives other VLRs", f"{len(rr['vl'])} records: {str([snap_tok(x)[:60] for x in rr['vl'][:3]])[:200]}"
+        elif rr["el"] != g["el"]:
+            what = "gives other EVLRs"
+            obs = "None" if rr["el"] is None else f"{len(rr['el'])} records: {str([snap_tok(x)[:60] for x in rr['el'][:3]])[:200]}"
+            obs += f" instead of {None if g['el'] is None else len(g['el'])}: {str([snap_tok(x)[:60] for x in (g['el'] or [])[:3]])[:200]}"
+        else:
+            continue
+        if laid and ROUTE_FORWARD.get(name):
+            kind = "nonseekable-evlr-gap: a source that cannot seek does not find EVLRs that do not follow the points directly"
+        else:
+            kind = (f"reading: another way of opening the file {what} where laspy.read(stream) reads it"
+                    + (" (bytes between the last point and the first EVLR)" if laid else ""))
+        bad.setdefault(kind, []).append((name, what, obs))
+    out = []
+    for kind, l in bad.items():
+        name, what, obs = l[0]
+        out.append((kind, f"{at}: {name} {what}: {obs}; header announces {g['loc'][2]} EVLRs at {g['loc'][3]}, points end at {g['loc'][1] + g['npts']}"
+                    + (f"; likewise: {', '.join(n for n, _, _ in l[1:])}" if len(l) > 1 else "")))
+    return out
+
+
 def oracle_file(case, res):
     """every generation of the file holds the lists that were attached to it, in order; records that went through the
-    reader come back as they were handed out"""
+    reader come back as they were handed out; every way of reading gives the same lists"""
     out = []
     prev = {}            # sid -> what the reader handed out in the previous generation
-    for gi, ((v, e, via, handed), g) in enumerate(zip(history(case), res["gens"])):
+    gprev = None
+    for gi, ((v, e, via, handed, info), g) in enumerate(zip(history(case), res["gens"])):
         at = f"generation {gi} ({via})"
+        if via == "append" and "werr" in g:
+            # a refused session: acceptable only when the VLRs cannot be written back in place, and never at the price
+            # of the records the file had
+            resized = vlr_room_changes(gprev)
+            after = g["after"]
+            same = "err" not in after and after["vl"] == gprev["vl"] and after["el"] == gprev["el"] and after["npts"] == gprev["npts"]
+            pre = "append-resized-vlr: " if resized else "file: "
+            if not same:
+                got = after.get("err") or f"{len(after['vl'])} VLRs, {None if after['el'] is None else len(after['el'])} EVLRs {str([snap_tok(x)[:50] for x in (after['el'] or [])[:2]])[:160]}, {after['npts']} point bytes"
+                out.append((pre + "an append session that raised left other records (or points) in the file than it had",
+                            f"{at}: {g['werr_text']}; the file had {len(gprev['vl'])} VLRs, {None if gprev['el'] is None else len(gprev['el'])} EVLRs, {gprev['npts']} point bytes; now: {got}"))
+            elif not resized:
+                out.append(("file: append session on a well-formed file refused", f"{at}: {g['werr_text']}"))
+            return out
         over = [x for x in v if not x["k"] and len(x["rec"][3]) > 65535]
-        grew = [x for x in v if x["k"] and prev.get(x["sid"], {}).get("ser") is not None and len(prev[x["sid"]]["ser"]) > 65535]
+        grew = [x for x in v if x["k"] and prev.get(x.get("dup", x["sid"]), {}).get("ser") is not None and len(prev[x.get("dup", x["sid"])]["ser"]) > 65535]
         if "werr" in g:
             if (over or grew) and g["werr"] == "EValue":
                 return out
@@ -1093,31 +1950,51 @@ def oracle_file(case, res):
         if over:
             return out + [("file vlrs: over-long VLR payload not refused", f"{at}: payload of {len(over[0]['rec'][3])} bytes written")]
         if grew:
-            return out + [("file vlrs: over-long normalised payload not refused", f"{at}: {len(prev[grew[0]['sid']]['ser'])} bytes")]
+            return out + [("file vlrs: over-long normalised payload not refused", f"{at}: {len(prev[grew[0].get('dup', grew[0]['sid'])]['ser'])} bytes")]
         if "rerr" in g:
             return out + [("file: what was written cannot be read back", f"{at}: {g['rerr']}; header announces {g['loc'][2]} EVLRs at {g['loc'][3]}, "
                            f"{0 if not e or not handed else len(e)} were written, file of {len(g['file'])} bytes")]
-        found = check_list("file vlrs", [x["rec"] for x in v], 65535, None, g["vl"], None, None, final=False)
+        wh = "file after an append session, " if via == "append" else "file "
+        found = check_list(wh + "vlrs", [x["rec"] for x in v], 65535, None, g["vl"], None, None, final=False)
         if e is not None:
-            found += check_list("file evlrs", [x["rec"] for x in e], None, None, g["el"], None, None, final=False)
-            if not e and g["loc"][2] != 0:
-                found.append(("file evlrs: header announces records that were not written", f"{g['loc'][2]} EVLRs at offset {g['loc'][3]}, none attached"))
+            found += check_list(wh + "evlrs", [x["rec"] for x in e], None, None, g["el"], None, None, final=False)
+            if not e and g["loc0"][2] != 0:
+                found.append((wh + "evlrs: header announces records that were not written", f"{g['loc0'][2]} EVLRs at offset {g['loc0'][3]}, none attached"))
+        elif g["el"] is not None:
+            found.append(("file evlrs: a file older than 1.4 reads with an EVLR list", f"{len(g['el'])} records"))
+        if via == "append" and gprev is not None and not found:
+            want = gprev["npts"] + sum(info["step"]["chunks"]) * point_size_of(g)
+            if g["npts"] != want:
+                found.append(("file: append session lost or invented points", f"{gprev['npts']} point bytes before, chunks {info['step']['chunks']}, {g['npts']} after"))
         cur = {}
         for items, snaps in ((v, g["vl"]), (e or [], g["el"] or [])):
             if len(items) == len(snaps):
                 for x, sn in zip(items, snaps):
                     cur[x["sid"]] = sn
-                    if x["k"] and x["sid"] in prev and prev[x["sid"]] != sn:
-                        a, cls = prev[x["sid"]], x["rec"][4].split("/")[0]
+                    src = x.get("dup", x["sid"])
+                    if x["k"] and src in prev and prev[src] != sn:
+                        a, cls = prev[src], x["rec"][4].split("/")[0]
                         diff = [k for k in a if a.get(k) != sn.get(k)]
                         found.append((f"file: parsed {cls} content not stable across a second write/read",
                                       f"{x['rec'][4]}: fields {diff} differ: {str({k: a.get(k) for k in diff})[:120]} vs {str({k: sn.get(k) for k in diff})[:120]}"))
+        if not found and g.get("api"):
+            found = [("list API: a selecting method of VLRList does not give the records of the list", "; ".join(g["api"])[:400])]
+        if not found:
+            found = check_routes(g, at)
         if found:
-            return out + [(k, f"{at}: {w}") for k, w in found]
+            out += [(k, f"{at}: {w}" if not w.startswith(at) else w) for k, w in found]
+            if any(not k.startswith(FINDING_PREFIXES) for k, _ in found):
+                return out
         prev = cur
+        gprev = g
     if res.get("skipped"):
         out.append(("file: parsed records serialise to far more bytes than were read", res["skipped"]))
     return out
+
+
+def point_size_of(g):
+    """bytes per point of the file of a generation, from its header"""
+    return int.from_bytes(g["file"][105:107], "little")
 
 
 def utf8_cases(rng):
@@ -1176,6 +2053,7 @@ def search(ctx, seeds):
         ctx.count("search only: utf-8 text / >65535 geokeys")
         for kind, why in oracle(case, res):
             add("non-ASCII text: " + kind if case["recs"][0][2].startswith(b"utf-8") else kind, case, why)
+    failing.sort(key=lambda f: f["kind"].startswith(FINDING_PREFIXES) or f["kind"].startswith("non-ASCII text: " + FINDING_PREFIXES[0]))
     return failing[:8]
 
 
@@ -1225,7 +2103,20 @@ def minimise(case, kind):
                     cur = cand
                 else:
                     ei += 1
-    if cur.get("erecs") and kind.startswith(("file vlrs", "vlr list")):
+    if cur.get("mode") == "file":
+        # the plainest layout and session that still show it
+        for si in range(-1, len(cur.get("steps", []))):
+            holder = cur if si < 0 else cur["steps"][si]
+            for key, plain in (("spread", None), ("chunks", []), ("open", "stream"), ("end", "with")):
+                if key in holder and holder[key] != plain and holder[key] is not None:
+                    cand = dict(cur)
+                    if si < 0:
+                        cand[key] = plain
+                    else:
+                        cand["steps"] = [dict(st, **{key: plain}) if i == si else st for i, st in enumerate(cur["steps"])]
+                    if still(cand):
+                        cur = cand
+    if cur.get("erecs") and kind.startswith(("file vlrs", "vlr list", "file after an append session, vlrs")):
         cand = dict(cur)
         cand["erecs"] = []
         if still(cand):
@@ -1247,7 +2138,7 @@ def replay(ctx, data):
     case = map_recs(inp, lambda recs: [(common.unhex(u), r, common.unhex(d), common.unhex(p), t) for u, r, d, p, t in recs])
     found = oracle(case, run_case(case))
     want = fi.get("kind", "").replace("non-ASCII text: ", "")
-    hit = [w for k, w in found if k == want] or [w for _, w in found]
+    hit = [w for k, w in found if k == want] or [w for k, w in found if not k.startswith(FINDING_PREFIXES)]
     if hit:
         print("REPRODUCED: " + hit[0])
         return 1
